@@ -1,4 +1,5 @@
 import Mastverif.Lemmas.Flush
+import Mastverif.Lemmas.StoreComplete
 /-!
 # C03 — a returned root is complete and durable (property theorems)
 
@@ -10,9 +11,20 @@ completion order, delay and failure pattern of the `Store` calls):
   if no write failed, all `n` completed successfully;
 * `C03_pool`: at most `pool` (= 40) `Store` calls are ever in flight;
 * `C03_error_reported`: a failed write is always reflected in `firstErr` at return.
-The sequential part (nothing is committed to the tree before the barrier; an error leaves the
-tree unchanged; a retry writes what is missing) is tied by the `flush` family and the source
-facts about pub.go's statement order.
+On the sequential model (`Tree.makeRoot` and the history semantics, with the store as the list
+of names written so far):
+* `C03_returned_version_is_in_the_store`: after EVERY history of inserts, deletes (with growth and
+  shrinking), lookups and persists from the empty tree, the names a further `MakeRoot` writes
+  together with what was written before cover every node reachable from the root it returns —
+  nothing reachable is skipped, whatever mix of persisted and in-memory nodes the tree holds
+  (invariant `J`: below every persisted link hangs a completely persisted subtree whose names are
+  all in the store);
+* `C03_named_by_content`: each of those writes is (hash of the bytes, bytes).
+Together with `C03_barrier` (all queued writes have completed when `MakeRoot` returns, and a
+failure is reported) this is the property's first sentence.  Tied by the `flush` family: nothing
+is committed to the tree before the barrier; an error leaves the tree usable; a retry writes what
+is missing; a second store sharing the node cache receives every node (source facts about pub.go's
+statement order).
 -/
 namespace Mast.MF
 
@@ -47,6 +59,33 @@ example : ∃ s, Reach 1 1 s ∧ s.returned = 1 ∧ s.okDone = 1 := by
   exact ⟨_, s9, by decide, by decide⟩
 
 end Mast.MF
+
+namespace Mast.Tree
+open T
+variable (layer : Nat → Nat)
+
+/-- **after every history, what MakeRoot returns is completely in the store** -/
+theorem C03_returned_version_is_in_the_store (e : Enc) (bf : Nat) (ops : List Op) :
+    let st := execS layer e (Tree.empty bf, []) ops
+    ∀ n ∈ reach e st.1, n ∈ st.2 ++ written e st.1 := by
+  intro st
+  exact (makeRoot_complete e st.2 st.1 (J_execS layer e ops (Tree.empty bf) [] (J_empty e bf))).1
+
+theorem C03_named_by_content (e : Enc) (m : Tree) : ∀ x ∈ (makeRoot e m).1, x.1 = e.hash x.2 := by
+  intro x hx
+  unfold makeRoot at hx
+  split at hx
+  · simp at hx
+  · split at hx
+    · simp at hx
+    · simp only [List.mem_append, List.mem_singleton] at hx
+      rcases hx with hx | rfl
+      · exact storesBelow_named e m.root x hx
+      · rfl
+
+end Mast.Tree
+#print axioms Mast.Tree.C03_returned_version_is_in_the_store
+#print axioms Mast.Tree.C03_named_by_content
 #print axioms Mast.MF.C03_barrier
 #print axioms Mast.MF.C03_pool
 #print axioms Mast.MF.C03_error_reported
